@@ -28,7 +28,9 @@ FLAGS = "--cfg bp7_verif -C instrument-coverage"
 
 
 def build():
-    env = dict(vlib.ENV, RUSTFLAGS=FLAGS, CARGO_TARGET_DIR=TGT)
+    os.makedirs(COV, exist_ok=True)
+    env = dict(vlib.ENV, RUSTFLAGS=FLAGS, CARGO_TARGET_DIR=TGT,
+               LLVM_PROFILE_FILE=os.path.join(COV, "build-%p-%m.profraw"))      # instrumented build scripts write a profile too: not into /repo
     rc, out = vlib.sh(["cargo", "+nightly", "build", "--offline", "-q"], cwd=vlib.HARNESS, timeout=1800, env=env)
     if rc:
         sys.exit("coverage build of the harness failed:\n" + out[-3000:])
